@@ -33,16 +33,33 @@ func verifSymName(ref string) string {
 	return ref
 }
 
-// verifRender concatenates the pieces, inserting extra[i] after separator i.
+// verifRender concatenates the pieces, inserting extra[i] after separator i. The byte offset
+// of every piece in the result is kept for the line-number check.
 func verifRender(id int, extra map[int]string) string {
 	out := ""
+	verifOffsets = make([]int, len(verifPieces[id]))
 	for i, p := range verifPieces[id] {
+		verifOffsets[i] = len(out)
 		out += p + verifSeps[id][i]
 		if e, ok := extra[i]; ok {
 			out += e
 		}
 	}
 	return out
+}
+
+// verifOffsets: piece offsets of the last verifRender (nil when the text was built otherwise)
+var verifOffsets []int
+
+// verifLineAt is the line (from 1) of byte offset off in text.
+func verifLineAt(text string, off int) int {
+	n := 1
+	for i := 0; i < off && i < len(text); i++ {
+		if text[i] == '\n' {
+			n++
+		}
+	}
+	return n
 }
 
 // verifCheckRead parses text and compares what yaccgo will work on with the specification.
@@ -75,6 +92,13 @@ func verifCheckRead(id int, text string, code, union, rest string, actionOf map[
 	}
 	for k, r := range v.rules {
 		e := exp[k]
+		if verifOffsets != nil && k < len(verifRuleSpan[id]) {
+			// the line recorded for a rule (it is written into the output) is a line of that alternative
+			from := verifLineAt(text, verifOffsets[verifRuleSpan[id][k][0]])
+			sp := verifRuleSpan[id][k][1]
+			to := verifLineAt(text, verifOffsets[sp]+len(verifPieces[id][sp]))
+			verifAssert(from <= r.LineNo && r.LineNo <= to, "C10: the line number recorded for a rule is not a line of that rule")
+		}
 		verifAssert(r.LeftPart != nil && r.LeftPart.Name == e.Lhs, "C10: left-hand side of a rule differs from the file")
 		verifAssert(len(r.RighPart) == len(e.Rhs), "C10: number of right-hand-side symbols differs from the file")
 		if len(r.RighPart) == len(e.Rhs) {
@@ -137,6 +161,7 @@ func VerifCanonical(id int) {
 func VerifNoEpilogue(id int) {
 	n := len(verifPieces[id])
 	out := ""
+	verifOffsets = nil
 	for i := 0; i < n-2; i++ {
 		out += verifPieces[id][i] + verifSeps[id][i]
 	}
@@ -154,6 +179,7 @@ func VerifBodies(id, which, m int) {
 	}
 	n := len(verifPieces[id])
 	out := ""
+	verifOffsets = nil
 	for i, p := range verifPieces[id] {
 		switch {
 		case which == 0 && i == 0:
